@@ -269,6 +269,105 @@ def signature_check(alias):
     return out
 
 
+def compact(res):
+    """Keep signals and changing statements only (sweeps produce many runs)."""
+    res = dict(res)
+    res['trace'] = [t for t in res.get('trace', [])
+                    if t[0] != 'sql' or is_change(t[2])]
+    res.pop('traceback', None)
+    return res
+
+
+def _in_child(fn):
+    """Run fn() in a forked child (observationally a fresh process that has
+    finished importing the project); returns its JSON-able result."""
+    import tempfile
+    from django.db import connections
+    for alias in connections:
+        connections[alias].close()
+    fd, path = tempfile.mkstemp(prefix='pbt_child_')
+    os.close(fd)
+    pid = os.fork()
+    if pid == 0:
+        code = 0
+        try:
+            out = fn()
+            with open(path, 'w') as fh:
+                json.dump(out, fh, default=str)
+        except BaseException:
+            with open(path, 'w') as fh:
+                json.dump({'child_error': traceback.format_exc()[-2000:]}, fh)
+            code = 1
+        finally:
+            os._exit(code)
+    os.waitpid(pid, 0)
+    try:
+        with open(path) as fh:
+            return json.load(fh)
+    finally:
+        os.unlink(path)
+
+
+def fault_sweep(step):
+    """For every changing statement k of the fault-free upgrade: pristine copy
+    -> run with fault k -> dump -> fault-free retry in another child -> dump."""
+    import shutil
+    from django.db import connections
+    aliases = step.get('dump', ['default'])
+    paths = {a: connections[a].settings_dict['NAME'] for a in aliases}
+    pristine = {a: paths[a] + '.pristine' for a in aliases}
+    for a in aliases:
+        for alias2 in connections:
+            connections[alias2].close()
+        shutil.copy(paths[a], pristine[a])
+
+    def restore():
+        for a in aliases:
+            shutil.copy(pristine[a], paths[a])
+
+    def snapshot():
+        out = {}
+        for a in aliases:
+            connections[a].close()
+            out[a] = dump_database(a)
+            out[a]['sig_check'] = signature_check(a)
+        return out
+
+    def one(fault_at):
+        upgrade = dict(step['upgrade'])
+        upgrade['fault_at'] = fault_at
+        r = compact(run_step(upgrade))
+        return {'run': r, 'dump': snapshot()}
+
+    result = {'before': _in_child(snapshot)}
+    restore()
+    base = _in_child(lambda: one(None))
+    result['baseline'] = base
+    if base.get('child_error'):
+        return result
+    n = base['run']['n_change']
+    ks = list(range(1, n + 1))
+    limit = step.get('max_faults')
+    if limit and len(ks) > limit:
+        # keep first, last and an even spread
+        stride = max(1, len(ks) // limit)
+        ks = sorted(set(ks[::stride] + [ks[0], ks[-1]]))
+    result['n_change'] = n
+    result['faults'] = []
+    for k in ks:
+        restore()
+        failed = _in_child(lambda: one(k))
+        retry = _in_child(lambda: one(None))
+        result['faults'].append({'k': k, 'failed': failed, 'retry': retry})
+    restore()
+    for a in aliases:
+        try:
+            os.unlink(pristine[a])
+        except OSError:
+            pass
+    return result
+
+
 def main():
     job = json.loads(sys.stdin.read())
     result = {'steps': [], 'dumps': {}}
@@ -283,6 +382,9 @@ def main():
         import django_evolution
         result['django_evolution_file'] = django_evolution.__file__
         for step in job.get('steps', []):
+            if step['op'] == 'fault_sweep':
+                result['sweep'] = fault_sweep(step)
+                continue
             r = run_step(step)
             result['steps'].append(r)
             if not r['ok'] and step.get('stop_on_error', False):
